@@ -75,6 +75,9 @@ def forwarding(ctx: Ctx, modules: tp.Optional[tp.Sequence[str]] = IO_MODULES, pr
                         passed = True
                     key = f'{f.qualname.split(".", 1)[1]}->{call_name(c)}:{prm}'
                     exc = EXCEPTIONS.get((f.qualname, call_name(c), prm))
+                    origin = getattr(g.node, '_sfa_origin', None)      # a single-use generator helper the model re-nested into its caller
+                    if exc is None and origin is not None:
+                        exc = next((why for (fq, cn, pr), why in EXCEPTIONS.items() if fq.endswith('.' + origin) and cn == call_name(c) and pr == prm), None)
                     if passed:
                         ctx.ok(R, g, c, f'{prm} is passed on to {call_name(c)}', key=key)
                     elif exc is not None:
